@@ -402,8 +402,11 @@ package base
 //@ # No variant can be given: the map may be cyclic (class A < B; class B < A).  The failing
 //@ # obligation is recorded as a known finding (see /verif/known_findings.txt).
 //@ func ti/base.getParentMethodT
-//@   terminates
+//@   terminates[C02]
 //@   inline 2 1
+//@   # C20: an include/extend edge without a frame is looked up in the Builtin frame only when
+//@   # that frame declares the module (not when some other frame has a class of the same short name)
+//@   callsite[C20] methodTFrameKey a_frame == "Builtin" && parentNode.Frame != "Builtin" ==> IsBuiltinClass(a_targetClass) && parentNode.Frame == "" && (parentNode.IsExtend || parentNode.IsInclude)
 //@   witness dec:rec#0 "class A < B\nend\nclass B < A\nend\nA.new.foo\n"
 
 //@ # ---- C01: rendering a signature indexes the declared parameter names ----
@@ -411,3 +414,10 @@ package base
 //@   safe idx,slice
 //@   inline 4 1
 //@   witness idx#1 "def test x, *"
+
+//@ # ---- C20: the flat list of short class names (every frame's classes) decides no frame ----
+//@ # It may only feed identifier classification; which frame a class name resolves to is decided
+//@ # by the (frame, class) table (IsBuiltinClass).
+//@ readers[C20] base.BuiltinClasses ti/builtin.loadBuiltinFromJSON,(*ti/base.T).IsClassIdentifier,(*ti/base.T).IsConstIdentifier
+//@ func base.BuiltinClasses
+//@   witness frame:readers#0 "class Base\n  def foo\n    1\n  end\nend\nclass A < Base\nend\na = A.new\nx = a.foo\ndbtp x\n" expect "not defined"
